@@ -7,7 +7,10 @@ import (
 	"fmt"
 	"math/rand"
 
+	sdkmath "cosmossdk.io/math"
+
 	sdk "github.com/cosmos/cosmos-sdk/types"
+	minttypes "github.com/cosmos/cosmos-sdk/x/mint/types"
 
 	"github.com/bandprotocol/chain/v3/pkg/obi"
 	"github.com/bandprotocol/chain/v3/testing/testdata"
@@ -34,8 +37,23 @@ type Driver struct {
 	payers      []world.Account
 }
 
+// xScale: one model unit of the second denom is 2*10^18 real units (an 18-decimals token): fees of 2 units asked three
+// times, or a cost of a few units, are beyond int64 - amounts must be computed with arbitrary precision throughout
+var xScale = sdkmath.NewIntWithDecimal(2, 18)
+
+func xCoin(x int64) sdk.Coin { return sdk.NewCoin("uxyz", xScale.MulRaw(x)) }
+
 func coins(u, x int64) sdk.Coins {
-	return sdk.NewCoins(sdk.NewInt64Coin("uband", u), sdk.NewInt64Coin("uxyz", x))
+	return sdk.NewCoins(sdk.NewInt64Coin("uband", u), xCoin(x))
+}
+
+// xUnits converts a real amount of the second denom into model units (sentinel 999999 when it is no whole number of them
+// or does not fit)
+func xUnits(a sdkmath.Int) int {
+	if !a.Mod(xScale).IsZero() || !a.Quo(xScale).IsInt64() || a.Quo(xScale).Int64() > 100000 {
+		return 999999
+	}
+	return int(a.Quo(xScale).Int64())
 }
 
 func NewDriver(w *tf.Writer) *Driver {
@@ -65,7 +83,7 @@ func (d *Driver) Close() { d.w.Close() }
 func (d *Driver) project(r *world.Run) tf.M {
 	bk := d.w.App.BankKeeper
 	vec := func(a sdk.AccAddress) tf.M {
-		return tf.M{"u": int(bk.GetBalance(r.Ctx, a, "uband").Amount.Int64()), "x": int(bk.GetBalance(r.Ctx, a, "uxyz").Amount.Int64())}
+		return tf.M{"u": int(bk.GetBalance(r.Ctx, a, "uband").Amount.Int64()), "x": xUnits(bk.GetBalance(r.Ctx, a, "uxyz").Amount)}
 	}
 	bal := tf.M{}
 	for _, p := range d.payers {
@@ -82,7 +100,7 @@ func (d *Driver) project(r *world.Run) tf.M {
 	remain := tf.M{"u": 0, "x": 0}
 	if n > 0 {
 		if rq, err := k.GetRequest(r.Ctx, oracletypes.RequestID(n)); err == nil {
-			remain = tf.M{"u": int(rq.FeeLimit.AmountOf("uband").Int64()), "x": int(rq.FeeLimit.AmountOf("uxyz").Int64())}
+			remain = tf.M{"u": int(rq.FeeLimit.AmountOf("uband").Int64()), "x": xUnits(rq.FeeLimit.AmountOf("uxyz"))}
 		}
 	}
 	return tf.M{"bal": bal, "nreq": int(n), "remain": remain, "esc": esc, "nsig": nsig}
@@ -135,7 +153,11 @@ func (d *Driver) RunScript(sc tf.Script) {
 		pb := tf.Sub(b, p.Name)
 		c := coins(int64(tf.Int(pb, "u", 0)), int64(tf.Int(pb, "x", 0)))
 		if !c.IsZero() {
-			if err := d.w.App.BankKeeper.SendCoins(r.Ctx, d.w.Accts[0].Addr, p.Addr, c); err != nil {
+			// minted for the payer (the scaled second denom is far beyond any genesis balance)
+			if err := d.w.App.BankKeeper.MintCoins(r.Ctx, minttypes.ModuleName, c); err != nil {
+				panic(err)
+			}
+			if err := d.w.App.BankKeeper.SendCoinsFromModuleToAccount(r.Ctx, minttypes.ModuleName, p.Addr, c); err != nil {
 				panic(err)
 			}
 		}
@@ -192,7 +214,7 @@ func (d *Driver) RunScript(sc tf.Script) {
 			limit = limit.Add(sdk.NewInt64Coin("uband", int64(lu)))
 		}
 		if lx > 0 {
-			limit = limit.Add(sdk.NewInt64Coin("uxyz", int64(lx)))
+			limit = limit.Add(xCoin(int64(lx)))
 		}
 		calldata := obi.MustEncode(testdata.Wasm4Input{IDs: ids, Calldata: "x"})
 		enc := tf.Bool(st, "enc", false)
